@@ -284,7 +284,24 @@ fn scenario(cx: &mut Ctx, rng: &mut Rng) {
             }
             let it: BBox<std::ops::Range<u32>> = BBox::new_in(0..5u32, cx.bump);
             let its: Box<std::ops::Range<u32>> = Box::new(0..5u32);
-            let same_it = it.collect::<Vec<_>>() == its.collect::<Vec<_>>();
+            let mut same_it = it.collect::<Vec<_>>() == its.collect::<Vec<_>>();
+            // every Iterator / DoubleEndedIterator / ExactSizeIterator method forwards, also past the end
+            for k in [0usize, 2, 4, 5, 7, (x % 9) as usize] {
+                let mut bi: BBox<std::ops::Range<u32>> = BBox::new_in(0..5u32, cx.bump);
+                let mut si: Box<std::ops::Range<u32>> = Box::new(0..5u32);
+                same_it = same_it && bi.size_hint() == si.size_hint() && bi.len() == si.len();
+                same_it = same_it && bi.nth(k) == si.nth(k) && bi.size_hint() == si.size_hint() && bi.next() == si.next() && bi.next_back() == si.next_back();
+                let mut bj: BBox<std::ops::Range<u32>> = BBox::new_in(0..5u32, cx.bump);
+                let mut sj: Box<std::ops::Range<u32>> = Box::new(0..5u32);
+                same_it = same_it && bj.nth_back(k) == sj.nth_back(k) && bj.next() == sj.next() && bj.len() == sj.len();
+                let bf: BBox<std::iter::Filter<std::ops::Range<u32>, fn(&u32) -> bool>> = BBox::new_in((0..9u32).filter((|v| v % 2 == 0) as fn(&u32) -> bool), cx.bump);
+                let sf: Box<std::iter::Filter<std::ops::Range<u32>, fn(&u32) -> bool>> = Box::new((0..9u32).filter((|v| v % 2 == 0) as fn(&u32) -> bool));
+                let (mut bf, mut sf) = (bf, sf);
+                same_it = same_it && bf.size_hint() == sf.size_hint() && bf.nth(k) == sf.nth(k) && bf.next() == sf.next() && bf.last() == sf.last();
+                let bc: BBox<std::ops::Range<u32>> = BBox::new_in(0..(k as u32), cx.bump);
+                let sc: Box<std::ops::Range<u32>> = Box::new(0..(k as u32));
+                same_it = same_it && bc.count() == sc.count();
+            }
             take_drops();
             drop((b1, b2));
             let d = take_drops();
